@@ -344,7 +344,7 @@ Proof.
 Qed.
 
 Lemma be_head k v : exists t, be (S k) v = (v / 256 ^ Z.of_nat k) mod 256 :: t.
-Proof. eexists. reflexivity. Qed.
+Proof. eexists. apply be_S. Qed.
 
 Lemma go_bytes_to_big_cons b0 t :
   go_bytes_to_big (b0 :: t) = Ok (if b0 <? 128 then unbe (b0 :: t) else unbe (b0 :: t) - 256 ^ len (b0 :: t)).
@@ -389,7 +389,7 @@ Proof.
     assert (Hpl : 0 <= padlen) by (subst padlen; destruct (negb (msb =? padval mod 2) && (padlen0 =? 0)); lia).
     destruct (Z.to_nat n) as [|k] eqn:Ek; [lia|].
     assert (Hk : Z.of_nat (S k) = n) by lia.
-    assert (Hb : b = (v / 256 ^ Z.of_nat k) mod 256 :: be k v) by reflexivity.
+    assert (Hb : b = (v / 256 ^ Z.of_nat k) mod 256 :: be k v) by (subst b; apply be_S).
     assert (Hlb : len b = n) by (subst b; rewrite len_be; exact Hk).
     assert (Hbok : bytes_ok b = true) by (subst b; apply be_bytes_ok).
     assert (Hub : unbe b = v mod 256 ^ n) by (subst b; rewrite unbe_be, Hk; reflexivity).
